@@ -26,6 +26,8 @@ func main() {
 		engine.CheckMain(os.Args[2:])
 	case "replay":
 		engine.ReplayMain(os.Args[2:])
+	case "c07worker":
+		engine.C07WorkerMain(os.Args[2:])
 	default:
 		fmt.Fprintln(os.Stderr, "unknown command", os.Args[1])
 		os.Exit(2)
